@@ -200,9 +200,11 @@ pub fn c17(ctx: &Ctx) -> Frag {
         Ok(())
     });
     let mut s = st.into_inner();
-    if res.is_err() {
+    if let Err(e) = &res {
         if let Some(v) = s.failed.take() {
             s.frag.violation(v);
+        } else {
+            s.frag.notes.push(format!("proptest aborted without a recorded violation: {}", e.to_string().chars().take(500).collect::<String>()));
         }
     }
     s.frag.extra.insert("api_calls_probed".into(), json!(s.calls));
